@@ -9,6 +9,7 @@ generated table of call sites.  All call sequences, of any length, in any interl
 the two kinds, are covered by induction.
 -/
 import GeckoModel.Generated.SeqCounter
+import GeckoModel.Proofs.SeqThreads
 
 namespace GeckoModel.C16
 open GeckoModel.Generated
@@ -160,10 +161,89 @@ theorem successor_cycles_sync (calls : List Bool) :
     ChainFrom succCmd 191 (ofKind true (results nextSeqSync seqInitSync calls)) :=
   successor_of sync_step_ok calls seqInitSync 0 0 init_inv.2
 
-/-- the threaded implementation executes the whole body inside `with self._lock` (syntactic fact extracted by
-the translator); any concurrent execution is therefore a serialisation of calls, to which the theorems above apply.
-Atomicity of `threading.Lock` itself is trusted. -/
-theorem sync_body_is_one_critical_section : syncCounterUnderLock = true := by decide
+/-! ### concurrent callers of the threaded counter
+
+`Generated.syncCounterProgram` is the shape of `GeckoUdpSocket.get_and_increment_sequence_counter` with respect to
+`self._lock`, regenerated from the source on every run; `SeqThreads.run` executes it one micro-operation at a time for
+any family of threads under any scheduler (Model/SeqThreads.lean). Atomicity of `threading.Lock` itself is trusted. -/
+
+/-- the generated shape: the whole read-modify-write-return is ONE critical section, and nothing else in the class
+touches the counters without the lock -/
+theorem sync_program_is_one_critical_section :
+    syncCounterProgram = [.acquire, .read, .write, .release] ∧ syncSharedAccessOutsideLock = [] := by decide
+
+theorem sameResults (next : Next) : ∀ (calls : List Bool) (s : SeqState),
+    SeqThreads.seqResults next s calls = results next s calls := by
+  intro calls
+  induction calls with
+  | nil => intro s; rfl
+  | cons c cs ih => intro s; simp [SeqThreads.seqResults, results, ih]
+
+/-- **serialisation**: whatever the number of threads, whatever calls each of them makes and however the scheduler
+interleaves their micro-operations, the numbers handed out (in the order they were handed out) are exactly the numbers
+ONE sequential caller making the same calls in that order would have received -/
+theorem threads_serialise (calls : Nat → List Bool) (sched : List Nat) :
+    let fin := SeqThreads.run nextSeqSync syncCounterProgram (SeqThreads.initSys seqInitSync calls) sched
+    fin.log = results nextSeqSync seqInitSync (fin.log.map (·.1)) := by
+  intro fin
+  have hp : syncCounterProgram = SeqThreads.lockedProg := sync_program_is_one_critical_section.1
+  have h := SeqThreads.linv_run nextSeqSync seqInitSync sched _ (SeqThreads.linv_init nextSeqSync seqInitSync calls)
+  have := h.log_ok
+  rw [sameResults] at this
+  simpa [fin, hp] using this
+
+/-- hence under any number of concurrent threads the closed form, the ranges and the successor cycles hold -/
+theorem threads_closed_form (calls : Nat → List Bool) (sched : List Nat) :
+    let fin := SeqThreads.run nextSeqSync syncCounterProgram (SeqThreads.initSys seqInitSync calls) sched
+    fin.log = specResults 0 0 (fin.log.map (·.1)) := by
+  intro fin
+  have := threads_serialise calls sched
+  simp only [] at this
+  rw [closed_form_sync] at this
+  exact this
+
+theorem threads_in_range (calls : Nat → List Bool) (sched : List Nat) :
+    ∀ r ∈ (SeqThreads.run nextSeqSync syncCounterProgram (SeqThreads.initSys seqInitSync calls) sched).log,
+      (r.1 = false → 1 ≤ r.2 ∧ r.2 ≤ 191) ∧ (r.1 = true → 192 ≤ r.2 ∧ r.2 ≤ 255) := by
+  intro r hr
+  have h := threads_closed_form calls sched
+  simp only [] at h
+  rw [h] at hr
+  exact spec_in_range _ 0 0 r hr
+
+theorem threads_successor_cycles (calls : Nat → List Bool) (sched : List Nat) :
+    let fin := SeqThreads.run nextSeqSync syncCounterProgram (SeqThreads.initSys seqInitSync calls) sched
+    ChainFrom succProto 0 (ofKind false fin.log) ∧ ChainFrom succCmd 191 (ofKind true fin.log) := by
+  intro fin
+  have h := threads_serialise calls sched
+  simp only [] at h
+  have := successor_cycles_sync (fin.log.map (·.1))
+  rw [← h] at this
+  exact this
+
+/-- at most one thread is ever between `acquire` and `release` -/
+theorem threads_mutex (calls : Nat → List Bool) (sched : List Nat) (i j : Nat) :
+    let fin := SeqThreads.run nextSeqSync syncCounterProgram (SeqThreads.initSys seqInitSync calls) sched
+    (fin.thrs i).pc ≠ 0 → (fin.thrs j).pc ≠ 0 → i = j := by
+  intro fin hi hj
+  have hp : syncCounterProgram = SeqThreads.lockedProg := sync_program_is_one_critical_section.1
+  have h := SeqThreads.linv_run nextSeqSync seqInitSync sched _ (SeqThreads.linv_init nextSeqSync seqInitSync calls)
+  rw [← hp] at h
+  exact SeqThreads.linv_mutex h i j hi hj
+
+/-- the lock placement matters (why the shape is an obligation): with the snapshot taken BEFORE the lock, two threads
+asking for one protocol number each can both be handed 1 -/
+theorem read_outside_lock_duplicates :
+    (SeqThreads.run nextSeqSync [.read, .acquire, .write, .release]
+      (SeqThreads.initSys seqInitSync (fun i => if i < 2 then [false] else [])) [0, 1, 0, 0, 0, 1, 1, 1]).log
+      = [(false, 1), (false, 1)] := by decide
+
+/-- non-vacuity: three threads, interleaved schedule crossing a blocked acquire; all calls complete and are serial -/
+example :
+    (SeqThreads.run nextSeqSync syncCounterProgram
+      (SeqThreads.initSys seqInitSync (fun i => if i < 3 then [false, true] else []))
+      [0, 1, 0, 2, 0, 0, 1, 1, 1, 1, 2, 2, 2, 2, 0, 0, 0, 0, 1, 1, 1, 1, 2, 2, 2, 2]).log
+      = [(false, 1), (false, 2), (false, 3), (true, 192), (true, 193), (true, 194)] := by decide
 
 /-! ### call sites: which counter each request kind uses -/
 
